@@ -70,6 +70,16 @@ func (a *protArena) place(o *Opnd) *Dec {
 		d.SetPrec(uint(o.Prec))
 		d.SetInf(o.Neg)
 	default:
+		if o.Gob {
+			// decoded from a gob payload: the struct lives in the arena, the mantissa array stays where
+			// the decoder allocated it (the caller compares its words before and after)
+			src := viaGob(o)
+			if src == nil {
+				panic("protArena.place: gob payload rejected")
+			}
+			*d = *src
+			break
+		}
 		// the mantissa gets spare capacity inside the protected pages (as mantissas produced by
 		// arithmetic have): a store just behind the operand's last word faults too
 		n := len(o.Words)
@@ -212,6 +222,12 @@ func wprotOperands(tier string) []*Opnd {
 			}
 		}
 	}
+	// values that arrived through gob with more low zero words than the precision needs
+	for i, v := range [][]uint64{{0, 0, 1234500000000000000}, {0, BW - 1}, {0, 0, 5, BW / 10}, {0, 1234567890123456789, BW / 2}} {
+		o := mkWords(i%2 == 1, v, int64(i)*7-3, uint32(minPrecWords(v)), uint8(i))
+		o.Gob = true
+		vs = append(vs, o)
+	}
 	vs = append(vs, mkSpecial(fZero, false, 5, 0), mkSpecial(fZero, true, 0, 2), mkSpecial(fInf, false, 5, 0), mkSpecial(fInf, true, 9, 4))
 	// ±0 / ±Inf in variables that held a finite value before (stale mantissa and exponent)
 	vs = append(vs, mkSpecial(fZero, false, 5, 1).withStale(1), mkSpecial(fZero, true, 7, 3).withStale(2), mkSpecial(fZero, false, 9, 0).withStale(3),
@@ -273,6 +289,12 @@ func wprotLayers(tier string, prop string) []Layer {
 					}
 					args := []*Dec{px, py, pu}[:op.arity]
 					plain := []*Dec{x.Build(), y.Build(), uo.Build()}[:op.arity]
+					var before []Obs
+					for ai, ao := range []*Opnd{x, y, uo}[:op.arity] {
+						if ao.Gob {
+							before = append(before, Observe(args[ai]))
+						}
+					}
 					for _, zp := range []uint32{0, 7, 40} {
 						var got, want string
 						z := buildPre(preFresh, zp, ToNearestEven)
@@ -290,6 +312,15 @@ func wprotLayers(tier string, prop string) []Layer {
 							c.Fail(key, fmt.Sprintf("panic: %v", pv))
 						case (pv == nil) != (pv2 == nil) || got != want:
 							c.Fail(key, fmt.Sprintf("result on protected operands %q (panic %v) differs from ordinary memory %q (panic %v)", got, pv, want, pv2))
+						}
+						bi := 0
+						for ai, ao := range []*Opnd{x, y, uo}[:op.arity] {
+							if ao.Gob {
+								if now := Observe(args[ai]); now.String() != before[bi].String() || now.Len != before[bi].Len {
+									c.Fail(key, fmt.Sprintf("operand %d (decoded from gob, mantissa outside the protected pages) changed: %s -> %s", ai, before[bi], now))
+								}
+								bi++
+							}
 						}
 					}
 				}
